@@ -21,7 +21,9 @@ pub mod map {
     /// `lo`/`hi` are exclusive key bounds already yielded from the front/back.
     /// `left`: a map holds at most MAXKEYS entries, so an iterator yields at most MAXKEYS times (a concrete counter, so
     /// that a `for` over the map has a structural bound for the verifier; it never cuts a real iteration short)
-    pub struct Iter<'a, K, V> { pub(crate) m: &'a super::SkipMap<K, V>, pub(crate) lo: Option<&'a K>, pub(crate) hi: Option<&'a K>, pub(crate) left: usize }
+    pub struct Iter<'a, K, V> { pub(crate) m: &'a super::SkipMap<K, V>, pub(crate) lo: Option<&'a K>, pub(crate) hi: Option<&'a K>, pub(crate) left: usize,
+        /// bounds of a `range(..)` iteration: (key, inclusive)
+        pub(crate) rlo: Option<(K, bool)>, pub(crate) rhi: Option<(K, bool)> }
 }
 use map::{Entry, Iter};
 impl<K: Ord, V> SkipMap<K, V> {
@@ -52,7 +54,14 @@ impl<K: Ord, V> SkipMap<K, V> {
         else if free == 1 { *self.slot(1) = Some((key, f())); let e = self.slot(1).as_ref().unwrap(); Entry { k: &e.0, v: &e.1 } }
         else { *self.slot(2) = Some((key, f())); let e = self.slot(2).as_ref().unwrap(); Entry { k: &e.0, v: &e.1 } }
     }
-    pub fn iter(&self) -> Iter<'_, K, V> { Iter { m: self, lo: None, hi: None, left: MAXKEYS } }
+    pub fn iter(&self) -> Iter<'_, K, V> { Iter { m: self, lo: None, hi: None, left: MAXKEYS, rlo: None, rhi: None } }
+    /// entries whose key lies in the range, ascending (subset of the real `range`: the bound type is the key type)
+    pub fn range<R: std::ops::RangeBounds<K>>(&self, r: R) -> Iter<'_, K, V> where K: Clone {
+        use std::ops::Bound::*;
+        let rlo = match r.start_bound() { Included(k) => Some((k.clone(), true)), Excluded(k) => Some((k.clone(), false)), Unbounded => None };
+        let rhi = match r.end_bound() { Included(k) => Some((k.clone(), true)), Excluded(k) => Some((k.clone(), false)), Unbounded => None };
+        Iter { m: self, lo: None, hi: None, left: MAXKEYS, rlo, rhi }
+    }
 }
 impl<'a, K: Ord, V> Iter<'a, K, V> {
     fn pick(&self, smallest: bool) -> Option<&'a (K, V)> {
@@ -63,7 +72,9 @@ impl<'a, K: Ord, V> Iter<'a, K, V> {
             if let Some(e) = s {
                 let ok_lo = match self.lo { Some(l) => e.0 > *l, None => true };
                 let ok_hi = match self.hi { Some(h) => e.0 < *h, None => true };
-                if ok_lo && ok_hi {
+                let in_lo = match &self.rlo { Some((k, incl)) => if *incl { e.0 >= *k } else { e.0 > *k }, None => true };
+                let in_hi = match &self.rhi { Some((k, incl)) => if *incl { e.0 <= *k } else { e.0 < *k }, None => true };
+                if ok_lo && ok_hi && in_lo && in_hi {
                     match best { Some(b) => { if (smallest && e.0 < b.0) || (!smallest && e.0 > b.0) { best = Some(e); } } None => best = Some(e) }
                 }
             }
